@@ -20,6 +20,7 @@ struct TC {
   TC(int x) noexcept : v(x) {}
   bool operator==(const TC &o) const noexcept { return v == o.v; }
   bool operator<(const TC &o) const noexcept { return v < o.v; }
+  bool operator>(const TC &o) const noexcept { return v > o.v; }
 #if __cplusplus >= 202002L
   auto operator<=>(const TC &o) const noexcept = default;
 #endif
@@ -37,6 +38,7 @@ struct TRnc {
   ~TRnc();
   bool operator==(const TRnc &) const noexcept;
   bool operator<(const TRnc &) const noexcept;
+  bool operator>(const TRnc &) const noexcept;
 #if __cplusplus >= 202002L
   std::strong_ordering operator<=>(const TRnc &) const noexcept;
 #endif
@@ -54,6 +56,7 @@ struct NTR {
   ~NTR();
   bool operator==(const NTR &) const noexcept;
   bool operator<(const NTR &) const noexcept;
+  bool operator>(const NTR &) const noexcept;
 #if __cplusplus >= 202002L
   std::strong_ordering operator<=>(const NTR &) const noexcept;
 #endif
@@ -71,6 +74,7 @@ struct NTRtm {
   ~NTRtm();
   bool operator==(const NTRtm &) const noexcept;
   bool operator<(const NTRtm &) const noexcept;
+  bool operator>(const NTRtm &) const noexcept;
 #if __cplusplus >= 202002L
   std::strong_ordering operator<=>(const NTRtm &) const noexcept;
 #endif
@@ -85,6 +89,7 @@ struct OptOut {
   OptOut(int x) noexcept : v(x) {}
   bool operator==(const OptOut &o) const noexcept { return v == o.v; }
   bool operator<(const OptOut &o) const noexcept { return v < o.v; }
+  bool operator>(const OptOut &o) const noexcept { return v > o.v; }
 #if __cplusplus >= 202002L
   auto operator<=>(const OptOut &o) const noexcept = default;
 #endif
@@ -102,6 +107,7 @@ struct MoveOnly {
   ~MoveOnly();
   bool operator==(const MoveOnly &) const noexcept;
   bool operator<(const MoveOnly &) const noexcept;
+  bool operator>(const MoveOnly &) const noexcept;
 #if __cplusplus >= 202002L
   std::strong_ordering operator<=>(const MoveOnly &) const noexcept;
 #endif
